@@ -39,7 +39,7 @@ type cutSite struct {
 // bounded by a result of one call to a repository function (the limits function).
 func plannerCut(r *Run, rule string, planner *ssa.Function, field string) *cutSite {
 	ff := computeFacts(planner)
-	bp := &bprover{ff: ff}
+	bp := &bprover{ff: ff, descend: r.Prog.IsRuleSite}
 	var site *cutSite
 	stores := fieldStoresIn(planner, pkgStrategy, "Result", field)
 	if len(stores) == 0 {
@@ -82,7 +82,7 @@ func plannerCut(r *Run, rule string, planner *ssa.Function, field string) *cutSi
 		var found *ssa.Extract
 		for _, e := range budgets {
 			e := e
-			if bp.le(sl.High, ff.At(st.Block()), func(x ssa.Value) bool { return x == ssa.Value(e) }, false, 0) {
+			if bp.le(sl.High, bp.root(), ff.At(st.Block()), func(x ssa.Value, _ *bframe) bool { return x == ssa.Value(e) }, false, 0) {
 				found = e
 				break
 			}
@@ -103,11 +103,12 @@ func plannerCut(r *Run, rule string, planner *ssa.Function, field string) *cutSi
 	return site
 }
 
-// limitsLeaf names the inputs of the limits function: fields of its struct parameter.
-func limitsLeaf(fn *ssa.Function) func(ssa.Value) (string, bool) {
-	return func(v ssa.Value) (string, bool) {
-		p, f, ok := paramFieldLeaf(v)
-		if !ok || p.Parent() != fn {
+// limitsLeaf names the inputs of the limits function: fields of its struct parameter, also when they
+// are read inside a helper (method or function) that receives the whole parameter struct.
+func limitsLeaf(bp *bprover) func(ssa.Value, *bframe) (string, bool) {
+	return func(v ssa.Value, fr *bframe) (string, bool) {
+		_, f, ok := bp.structLeaf(v, fr)
+		if !ok {
 			return "", false
 		}
 		return f, true
@@ -127,8 +128,8 @@ func returnsOf(fn *ssa.Function) []*ssa.Return {
 // limitsClamp checks result #idx of the limits function: >= 0 and <= max(0, <maxField>) on every return.
 func limitsClamp(r *Run, rule string, fn *ssa.Function, idx int, maxField string) {
 	ff := computeFacts(fn)
-	bp := &bprover{ff: ff}
-	leaf := limitsLeaf(fn)
+	bp := &bprover{ff: ff, descend: r.Prog.IsRuleSite}
+	leaf := limitsLeaf(bp)
 	for i, ret := range returnsOf(fn) {
 		if idx >= len(ret.Results) {
 			continue
@@ -136,11 +137,11 @@ func limitsClamp(r *Run, rule string, fn *ssa.Function, idx int, maxField string
 		v := ret.Results[idx]
 		pos := r.Prog.Pos(instrPos(ret))
 		fs := ff.At(ret.Block())
-		up := bp.le(v, fs, func(x ssa.Value) bool { n, ok := leaf(x); return ok && n == maxField }, true, 0)
+		up := bp.le(v, bp.root(), fs, func(x ssa.Value, fr *bframe) bool { n, ok := leaf(x, fr); return ok && n == maxField }, true, 0)
 		r.Check(rule, fmt.Sprintf("result #%d <= max(0,%s) at return-%d", idx, maxField, i+1), pos, shortFunc(fn),
 			fmt.Sprintf("result #%d is clamped to at most max(0, %s) on every path", idx, maxField), up,
 			"proved from the clamp conditions / min-max structure of "+v.Name())
-		lo := bp.ge0(v, fs, 0)
+		lo := bp.ge0(v, bp.root(), fs, 0)
 		r.Check(rule, fmt.Sprintf("result #%d >= 0 at return-%d", idx, i+1), pos, shortFunc(fn),
 			fmt.Sprintf("result #%d is never negative (it is used as a slice bound)", idx), lo, "proved from the clamp conditions of "+v.Name())
 	}
@@ -165,8 +166,8 @@ func c03Reference() linForm {
 // c03Dominance checks R2 and reports whether the budget credits NbOldUnavailablePods.
 func c03Dominance(r *Run, fn *ssa.Function, idx int) (credits bool) {
 	ff := computeFacts(fn)
-	bp := &bprover{ff: ff}
-	leaf := limitsLeaf(fn)
+	bp := &bprover{ff: ff, descend: r.Prog.IsRuleSite}
+	leaf := limitsLeaf(bp)
 	ref := c03Reference()
 	for i, ret := range returnsOf(fn) {
 		if idx >= len(ret.Results) {
@@ -174,14 +175,14 @@ func c03Dominance(r *Run, fn *ssa.Function, idx int) (credits bool) {
 		}
 		v := ret.Results[idx]
 		var forms, why []string
-		goal := func(x ssa.Value) bool {
-			if n, ok := leaf(x); ok && n == "NbOldUnavailablePods" {
+		goal := func(x ssa.Value, fr *bframe) bool {
+			if n, ok := leaf(x, fr); ok && n == "NbOldUnavailablePods" {
 				forms = append(forms, n)
 				credits = true
 				return true
 			}
 			lc := &linCtx{bp: bp, leaf: leaf}
-			f, ok := lc.form(x, 0)
+			f, ok := lc.form(x, fr, 0)
 			if !ok {
 				why = append(why, lc.why)
 				return false
@@ -197,7 +198,7 @@ func c03Dominance(r *Run, fn *ssa.Function, idx int) (credits bool) {
 			}
 			return true
 		}
-		ok := bp.le(v, ff.At(ret.Block()), goal, true, 0)
+		ok := bp.le(v, bp.root(), ff.At(ret.Block()), goal, true, 0)
 		detail := "bounded by: " + strings.Join(uniq(forms), " | ")
 		if !ok {
 			detail = strings.Join(uniq(why), "; ")
@@ -321,42 +322,87 @@ func intOrPercentSlot(r *Run, rule, slot, field string, site *cutSite, v ssa.Val
 	r.Check(rule, construct, pos, shortFunc(site.planner), need, len(miss) == 0, strings.Join(miss, "; "))
 }
 
-// c03Slots checks R3 and returns the main loop, and the counter phi feeding NbOldUnavailablePods.
-func c03Slots(r *Run, site *cutSite) (*loopB, *ssa.Phi, []*Path) {
+// liftAccessPath expresses the access path of v (a value of fn) in terms of the planner: when fn is a
+// helper reached from the planner through a single chain of single call sites, a path rooted at a
+// parameter of the helper is re-rooted at the corresponding argument.
+func liftAccessPath(p *Prog, v ssa.Value, fn, planner *ssa.Function) (ssa.Value, []string, []ssa.CallInstruction, bool) {
+	root, fields := accessPath(v)
+	var chain []ssa.CallInstruction
+	within := p.reachableFuncs(planner)
+	for i := 0; fn != planner; i++ {
+		par, isP := root.(*ssa.Parameter)
+		if !isP || i > 4 {
+			return nil, nil, nil, false
+		}
+		sites := callSitesOf(fn, within)
+		if len(sites) != 1 {
+			return nil, nil, nil, false
+		}
+		idx := paramIndex(par)
+		if idx < 0 || idx >= len(sites[0].Common().Args) {
+			return nil, nil, nil, false
+		}
+		r2, f2 := accessPath(sites[0].Common().Args[idx])
+		root, fields = r2, append(append([]string{}, f2...), fields...)
+		chain = append(chain, sites[0])
+		fn = sites[0].Parent()
+	}
+	return root, fields, chain, true
+}
+
+func c03SamePath(r1 ssa.Value, f1 []string, r2 ssa.Value, f2 []string) bool {
+	return r1 == r2 && strings.Join(f1, ".") == strings.Join(f2, ".")
+}
+
+// c03Slots checks R3 and returns the main loop, the counter cell feeding NbOldUnavailablePods, the
+// iteration paths and the resolver (cells may live in a helper that collects the counts).
+func c03Slots(r *Run, site *cutSite) (*loopB, *ccell, []*Path, *cellResolver) {
 	fn := site.planner
 	pos := r.Prog.Pos(site.call.Pos())
+	cr := &cellResolver{prog: r.Prog}
 	slots, why := slotValues(site.call)
 	if slots == nil {
 		r.Undecided("C03.R3", "limits arguments", pos, shortFunc(fn), why)
-		return nil, nil, nil
+		return nil, nil, nil, cr
 	}
-	loops := findLoops(fn)
-	k := site.ff.K
 
 	// the main loop: the one carrying the available counter
-	main, _ := counterLoop(loops, slots["NbAvailablesPod"])
-	if main == nil {
-		main, _ = counterLoop(loops, slots["NbOldAvailablesPod"])
+	var main *loopB
+	var mainFn *ssa.Function
+	whyNot := ""
+	for _, s := range []string{"NbAvailablesPod", "NbOldAvailablesPod"} {
+		if v := slots[s]; v != nil && main == nil {
+			if c, w := cr.resolve(v, fn); c != nil {
+				main, mainFn = c.loop, c.fn
+			} else {
+				whyNot = w
+			}
+		}
 	}
 	if main == nil || main.val == nil || main.key == nil {
-		r.Undecided("C03.R3", "node loop", pos, shortFunc(fn), "NbAvailablesPod/NbOldAvailablesPod are not counters of a `for node, pod := range <map>` loop")
-		return nil, nil, nil
+		r.Undecided("C03.R3", "node loop", pos, shortFunc(fn), "NbAvailablesPod/NbOldAvailablesPod are not counters of a `for node, pod := range <map>` loop: "+whyNot)
+		return nil, nil, nil, cr
 	}
 	if main.innerExit || main.nested {
-		r.Undecided("C03.R3", "node loop", r.Prog.Pos(main.header.Instrs[0].Pos()), shortFunc(fn), "the node loop has a break/return or a nested loop; per-node counts cannot be read off its paths")
-		return nil, nil, nil
+		r.Undecided("C03.R3", "node loop", r.Prog.Pos(main.header.Instrs[0].Pos()), shortFunc(mainFn), "the node loop has a break/return or a nested loop; per-node counts cannot be read off its paths")
+		return nil, nil, nil, cr
+	}
+	k := site.ff.K
+	if mainFn != fn {
+		k = newKeyer(mainFn)
 	}
 	paths, ok := main.iterPaths(k, 5000)
 	r.paths += len(paths)
 	if !ok {
 		r.Undecided("C03.R3", "node loop", pos, shortFunc(fn), "path cap exceeded")
-		return nil, nil, nil
+		return nil, nil, nil, cr
 	}
 	isPod := isValueMatcher(main.val)
+	isZero := func(v ssa.Value) bool { c, isC := constInt(stripIntConv(v)); return isC && c == 0 }
 
 	type ctr struct {
 		slot string
-		phi  *ssa.Phi
+		phi  *ccell
 	}
 	var ctrs []ctr
 	for _, s := range []string{"NbAvailablesPod", "NbOldAvailablesPod", "NbUnresponsiveNodes", "NbOldUnavailablePods"} {
@@ -369,28 +415,25 @@ func c03Slots(r *Run, site *cutSite) (*loopB, *ssa.Phi, []*Path) {
 			ctrs = append(ctrs, ctr{s, nil})
 			continue
 		}
-		l, ph := counterLoop(loops, v)
-		if l != main {
-			r.Check("C03.R3", "slot "+s, pos, shortFunc(fn), s+" is a per-node counter of the node loop", false, "filled from "+v.String())
+		cell, w := cr.resolve(v, fn)
+		if cell == nil || cell.loop != main {
+			if cell != nil {
+				w = "it is built in another loop"
+			}
+			r.Check("C03.R3", "slot "+s, pos, shortFunc(fn), s+" is a per-node counter of the node loop", false, "filled from "+v.String()+": "+w)
 			ctrs = append(ctrs, ctr{s, nil})
 			continue
 		}
-		zero := true
-		for _, e := range main.entryEdges(ph) {
-			if c, isC := constInt(e); !isC || c != 0 {
-				zero = false
-			}
+		if !cell.startsFrom(isZero, true) {
+			r.Check("C03.R3", "slot "+s, pos, shortFunc(fn), s+" starts from zero", false, "counter has a non-zero initial value or is assigned outside the loop")
 		}
-		if !zero {
-			r.Check("C03.R3", "slot "+s, pos, shortFunc(fn), s+" starts from zero", false, "counter has a non-zero initial value")
-		}
-		ctrs = append(ctrs, ctr{s, ph})
+		ctrs = append(ctrs, ctr{s, cell})
 	}
-	delta := func(p *Path, ph *ssa.Phi) (int64, bool) {
-		if ph == nil {
+	delta := func(p *Path, c *ccell) (int64, bool) {
+		if c == nil {
 			return 0, true
 		}
-		return main.deltaOnPath(p, ph)
+		return c.delta(p)
 	}
 	type verdict struct {
 		ok     bool
@@ -481,29 +524,44 @@ func c03Slots(r *Run, site *cutSite) (*loopB, *ssa.Phi, []*Path) {
 	r.Check("C03.R3", "one availability notion", lpos, shortFunc(fn), "every availability test of the node loop uses the same notion: IsPodAvailable(pod, 0, _) or identical arguments", len(availKeys) <= 1,
 		fmt.Sprintf("%d distinct call shapes", len(availKeys)))
 
-	// NbNodes = len(ranged map), nothing removed afterwards
+	// NbNodes = len(ranged map), nothing removed afterwards (the loop may live in a helper: the map is
+	// compared by its access path lifted to the planner, and the helper's own map writes count as
+	// happening at its call site)
 	nb := slots["NbNodes"]
 	okLen := false
 	detail := "NbNodes is not len() of the ranged map"
-	if nb != nil {
-		if lc := builtinCall(stripIntConv(nb), "len"); lc != nil && k.key(lc.Call.Args[0]) == k.key(main.rangeOver) {
-			okLen = true
-			detail = ""
-			mk := k.key(main.rangeOver)
-			for _, ci := range callsIn(fn) {
-				if c, isCall := ci.(*ssa.Call); isCall && builtinCall(c, "delete") != nil && k.key(c.Call.Args[0]) == mk {
-					if canExecuteAfter(lc, c) {
-						okLen = false
-						detail = "an entry is removed from the map at " + r.Prog.Pos(c.Pos()) + " after its size was taken"
+	mroot, mfields, chain, liftOK := liftAccessPath(r.Prog, main.rangeOver, mainFn, fn)
+	if nb != nil && liftOK {
+		if lc := builtinCall(stripIntConv(nb), "len"); lc != nil {
+			lroot, lfields := accessPath(lc.Call.Args[0])
+			if c03SamePath(lroot, lfields, mroot, mfields) {
+				okLen = true
+				detail = ""
+				sameMap := func(v ssa.Value, in *ssa.Function) bool {
+					r2, f2, _, ok2 := liftAccessPath(r.Prog, v, in, fn)
+					return ok2 && c03SamePath(r2, f2, mroot, mfields)
+				}
+				scan := func(in *ssa.Function, at ssa.Instruction) {
+					for _, b := range in.Blocks {
+						for _, ins := range b.Instrs {
+							where := at
+							if where == nil {
+								where = ins
+							}
+							if c, isCall := ins.(*ssa.Call); isCall && builtinCall(c, "delete") != nil && sameMap(c.Call.Args[0], in) && canExecuteAfter(lc, where) {
+								okLen = false
+								detail = "an entry is removed from the map at " + r.Prog.Pos(c.Pos()) + " after its size was taken"
+							}
+							if mu, isMU := ins.(*ssa.MapUpdate); isMU && sameMap(mu.Map, in) && canExecuteAfter(lc, where) {
+								okLen = false
+								detail = "the map is written at " + r.Prog.Pos(mu.Pos()) + " after its size was taken"
+							}
+						}
 					}
 				}
-			}
-			for _, b := range fn.Blocks {
-				for _, in := range b.Instrs {
-					if mu, isMU := in.(*ssa.MapUpdate); isMU && k.key(mu.Map) == mk && canExecuteAfter(lc, mu) {
-						okLen = false
-						detail = "the map is written at " + r.Prog.Pos(mu.Pos()) + " after its size was taken"
-					}
+				scan(fn, nil)
+				if mainFn != fn && len(chain) > 0 {
+					scan(mainFn, chain[len(chain)-1])
 				}
 			}
 		}
@@ -512,13 +570,13 @@ func c03Slots(r *Run, site *cutSite) (*loopB, *ssa.Phi, []*Path) {
 	intOrPercentSlot(r, "C03.R3", "MaxUnavailablePod", "MaxUnavailable", site, slots["MaxUnavailablePod"], nb)
 	intOrPercentSlot(r, "C03.R3", "MaxUnschedulablePod", "MaxPodSchedulerFailure", site, slots["MaxUnschedulablePod"], nb)
 
-	var ou *ssa.Phi
+	var ou *ccell
 	for _, c := range ctrs {
 		if c.slot == "NbOldUnavailablePods" {
 			ou = c.phi
 		}
 	}
-	return main, ou, paths
+	return main, ou, paths, cr
 }
 
 // concatParts splits a slice value built by append(a, b...) into the lists concatenated, in order.
@@ -535,7 +593,7 @@ func concatParts(v ssa.Value) []ssa.Value {
 }
 
 // c03Shape checks R4.
-func c03Shape(r *Run, site *cutSite, main *loopB, ou *ssa.Phi, paths []*Path, credits bool) {
+func c03Shape(r *Run, site *cutSite, main *loopB, ou *ccell, paths []*Path, credits bool, cr *cellResolver) {
 	fn := site.planner
 	pos := r.Prog.Pos(instrPos(site.store))
 	need := "the leading lists of the cut candidate list receive only nodes appended under IsPodAvailable(pod)==false, and each increment of NbOldUnavailablePods is matched by such an append"
@@ -550,26 +608,24 @@ func c03Shape(r *Run, site *cutSite, main *loopB, ou *ssa.Phi, paths []*Path, cr
 	}
 	isPod := isValueMatcher(main.val)
 	parts := concatParts(site.cand)
-	var prefix []*ssa.Phi
+	var prefix []*ccell
 	var why string
 	for _, part := range parts {
-		ph := main.headerPhi(part)
-		if ph == nil {
+		ph, w := cr.resolve(part, fn)
+		if ph == nil || ph.loop != main {
 			why = "part " + part.Name() + " of the candidate list is not a list built in the node loop"
+			if w != "" {
+				why += " (" + w + ")"
+			}
 			break
 		}
-		empty := true
-		for _, e := range main.entryEdges(ph) {
-			if !isEmptySlice(e) {
-				empty = false
-			}
-		}
+		empty := ph.startsFrom(isEmptySlice, true)
 		allN := empty
 		for _, p := range paths {
-			elems, ok := main.appendsOnPath(p, ph)
+			elems, ok := ph.appends(p)
 			if !ok {
 				allN = false
-				why = "list " + ph.Comment + " is modified other than by append(list, node)"
+				why = "list " + ph.String() + " is modified other than by append(list, node)"
 				break
 			}
 			if len(elems) == 0 {
@@ -579,13 +635,13 @@ func c03Shape(r *Run, site *cutSite, main *loopB, ou *ssa.Phi, paths []*Path, cr
 			for _, e := range elems {
 				if unwrap(e) != main.key {
 					allN = false
-					why = "list " + ph.Comment + " receives a value that is not the node of the current iteration"
+					why = "list " + ph.String() + " receives a value that is not the node of the current iteration"
 				}
 			}
 			if !(found && !pol) {
 				allN = false
 				if why == "" {
-					why = "list " + ph.Comment + " receives nodes on a path without IsPodAvailable(pod)==false: [" + shortFacts(p) + "]"
+					why = "list " + ph.String() + " receives nodes on a path without IsPodAvailable(pod)==false: [" + shortFacts(p) + "]"
 				}
 			}
 		}
@@ -605,7 +661,7 @@ func c03Shape(r *Run, site *cutSite, main *loopB, ou *ssa.Phi, paths []*Path, cr
 		detail = "NbOldUnavailablePods is not incremented in the node loop (see C03.R3 slot NbOldUnavailablePods)"
 	} else {
 		for _, p := range paths {
-			d, okd := main.deltaOnPath(p, ou)
+			d, okd := ou.delta(p)
 			if !okd {
 				ok = false
 				detail = "NbOldUnavailablePods counter not a simple increment"
@@ -616,7 +672,7 @@ func c03Shape(r *Run, site *cutSite, main *loopB, ou *ssa.Phi, paths []*Path, cr
 			}
 			var n int64
 			for _, ph := range prefix {
-				elems, _ := main.appendsOnPath(p, ph)
+				elems, _ := ph.appends(p)
 				n += int64(len(elems))
 			}
 			if d > n {
@@ -908,11 +964,11 @@ func runC03(r *Run) {
 	}
 	limitsClamp(r, "C03.R1", site.limits, site.idx, "MaxUnavailablePod")
 	credits := c03Dominance(r, site.limits, site.idx)
-	main, ou, paths := c03Slots(r, site)
+	main, ou, paths, cr := c03Slots(r, site)
 	if main == nil {
 		relaxFloors(r, "C03.R3")
 	}
-	c03Shape(r, site, main, ou, paths, credits)
+	c03Shape(r, site, main, ou, paths, credits, cr)
 	c03DeleteChain(r, site)
 	c03SecondsUnit(r)
 }
